@@ -116,6 +116,24 @@ func (fc *fnCtx) resolveCallee(c *ssa.CallCommon) *callee {
 	return ce
 }
 
+// funcTypeCallee: a call through a value of a named function type that has a "func type:Name" contract.
+func (fc *fnCtx) funcTypeCallee(c *ssa.CallCommon) *callee {
+	nt, ok := c.Value.Type().(*types.Named)
+	if !ok || nt.Obj().Pkg() == nil {
+		return nil
+	}
+	con := fc.g.CS.ByFunc[nt.Obj().Pkg().Path()+"::type:"+nt.Obj().Name()]
+	if con == nil {
+		return nil
+	}
+	sig := nt.Underlying().(*types.Signature)
+	fce := &callee{name: nt.Obj().Pkg().Name() + ".type:" + nt.Obj().Name(), con: con, pkg: nt.Obj().Pkg(), sig: sig}
+	fce.params, fce.ptypes = sigParams(sig, nil)
+	fce.params = append([]string{"fn"}, fce.params...)
+	fce.ptypes = append([]types.Type{nt}, fce.ptypes...)
+	return fce
+}
+
 func (fc *fnCtx) doCall(ins *ssa.Call, st *State) {
 	c := ins.Common()
 	if b, ok := c.Value.(*ssa.Builtin); ok {
@@ -132,8 +150,41 @@ func (fc *fnCtx) doCall(ins *ssa.Call, st *State) {
 		args = append(args, fc.get(a))
 	}
 	ce := fc.resolveCallee(c)
+	if ce != nil && ce.external && fc.atomicOp(ins, ce, args, st) {
+		return
+	}
 	res := fc.applyCall(st, ce, c, args, ins.Pos(), ins.Type())
 	fc.vals[ins] = res
+}
+
+// atomicOp models sync/atomic integer operations as plain (sequential) loads and stores.
+func (fc *fnCtx) atomicOp(ins *ssa.Call, ce *callee, args []Val, st *State) bool {
+	if !strings.HasPrefix(ce.name, "sync/atomic.") || len(args) == 0 {
+		return false
+	}
+	op := strings.TrimPrefix(ce.name, "sync/atomic.")
+	p := args[0]
+	if p.Addr == nil {
+		fc.safe(st, "nil", Not(Eq(p.T, "nilR")), ins.Pos())
+	}
+	fc.note("sync/atomic.%s modelled as a sequential memory operation", op)
+	switch {
+	case strings.HasPrefix(op, "Add") && len(args) == 2:
+		v := fc.deref(st, p)
+		nv := App("+", v.T, args[1].T)
+		fc.storeThrough(st, p, nv)
+		fc.define(ins, nv, ins.Type())
+		return true
+	case strings.HasPrefix(op, "Load") && len(args) == 1:
+		v := fc.deref(st, p)
+		fc.define(ins, v.T, ins.Type())
+		return true
+	case strings.HasPrefix(op, "Store") && len(args) == 2:
+		fc.storeThrough(st, p, args[1].T)
+		fc.vals[ins] = Val{T: "true", Sort: "Bool", Typ: ins.Type()}
+		return true
+	}
+	return false
 }
 
 // applyCall models a call: checks the callee's precondition, applies its frame and assumes its postcondition.
@@ -142,6 +193,11 @@ func (fc *fnCtx) applyCall(st *State, ce *callee, c *ssa.CallCommon, args []Val,
 		// dynamic call through a function value
 		fv := fc.get(c.Value)
 		fc.safe(st, "nil", Not(Eq(fv.T, "nilR")), pos)
+		// a named function type may carry a contract ("func type:Name")
+		if fce := fc.funcTypeCallee(c); fce != nil {
+			fc.g.trustedUsed[fce.name] = true
+			return fc.applyCall(st, fce, c, append([]Val{fv}, args...), pos, resT)
+		}
 		fc.note("call through function value %s: abstract (whole heap havoc'd)", c.Value.Name())
 		fc.havocAll(st)
 		fc.bumpAlloc(st)
@@ -196,7 +252,7 @@ func (fc *fnCtx) applyCall(st *State, ce *callee, c *ssa.CallCommon, args []Val,
 		if con.Trusted && ce.external {
 			kind = "safe.ext." + shortName(ce.name)
 			if !fc.safety() {
-				fc.assume(st, fc.evalClause(env, r))
+				fc.assume(st, fc.evalAssume(env, r))
 				continue
 			}
 			fc.oblige(st, kind, fc.evalClause(env, r), pos, uniq(append([]string{"C17"}, fc.propsAll...)), r.Text)
@@ -230,7 +286,7 @@ func (fc *fnCtx) applyCall(st *State, ce *callee, c *ssa.CallCommon, args []Val,
 		}
 	}
 	for _, e := range con.Ensures {
-		fc.assume(st, fc.evalClause(post, e))
+		fc.assume(st, fc.evalAssume(post, e))
 	}
 	if con.NoReturn {
 		fc.assume(st, "false")
@@ -402,7 +458,12 @@ func (fc *fnCtx) assignTarget(env *Env, text string) assignTarget {
 		// everything except the cells of the listed types (locals whose address is passed around)
 		var keep []string
 		for _, a := range splitTop(text[11:len(text)-1], ';') {
-			t := env.resolveType(parseExprOrBail(strings.TrimSpace(a)))
+			a = strings.TrimSpace(a)
+			if strings.HasPrefix(a, "[]") {
+				keep = append(keep, fc.elemHeap(env.resolveType(parseExprOrBail(a[2:]))))
+				continue
+			}
+			t := env.resolveType(parseExprOrBail(a))
 			keep = append(keep, fc.cellHeap(t))
 		}
 		return assignTarget{kind: "except", heaps: keep}
@@ -434,6 +495,12 @@ func (fc *fnCtx) assignTarget(env *Env, text string) assignTarget {
 			bail("assigns elems(%s): not a slice", text)
 		}
 		return assignTarget{kind: "loc", heaps: []string{fc.elemHeap(sl.Elem())}, keys: []string{App("sarr", v.T)}}
+	}
+	if strings.HasPrefix(text, "gmap(") && strings.HasSuffix(text, ")") {
+		parts := splitTop(text[5:len(text)-1], ',')
+		d, v := fc.ghostHeaps(strings.TrimSpace(parts[0]))
+		obj := env.evalRefArg(parseExprOrBail(strings.TrimSpace(parts[1])))
+		return assignTarget{kind: "loc", heaps: []string{d, v}, keys: []string{obj, obj}}
 	}
 	if strings.HasPrefix(text, "map(") && strings.HasSuffix(text, ")") {
 		v := env.eval(parseExprOrBail(text[4 : len(text)-1]))
@@ -500,7 +567,16 @@ func (fc *fnCtx) callWrites(c *ssa.CallCommon, names map[string]bool) (all bool)
 	}
 	ce := fc.resolveCallee(c)
 	if ce == nil {
+		ce = fc.funcTypeCallee(c)
+	}
+	if ce == nil {
 		return true
+	}
+	if ce.external && strings.HasPrefix(ce.name, "sync/atomic.") && len(c.Args) > 0 {
+		if strings.Contains(ce.name, "Load") {
+			return false
+		}
+		return !fc.staticTargets(c.Args[0], names)
 	}
 	con := ce.con
 	if con == nil {
